@@ -133,23 +133,30 @@ def run (op impl : String) : Ans :=
           (if reloads > 0 && inflight then ["nt"] else []) }
   | ["mod", name, body] =>
     -- module data: R<v> reload, T<i> take, U<i> use, H whole request; the value printed names the version that answered
+    -- B<n> = a reload with a broken data file: rejected, no step at all in the model (nothing may change);
+    -- modules whose handler is one piece (tag, trust) have no take/use split: T / U are ignored for them
+    let split := name != "tag" && name != "trust"
     let parsed := (body.splitOn ",").mapM fun st =>
-      if st == "H" then some MStep.handle
+      if st == "H" then some [MStep.handle]
       else match st.toList with
         | c :: rest => (String.ofList rest).toNat?.bind fun n =>
-            if c == 'R' then some (MStep.reload n false) else if c == 'T' then some (MStep.take n)
-            else if c == 'U' then some (MStep.use n) else none
+            if c == 'R' then some [MStep.reload n false] else if c == 'B' then some []
+            -- E<n>: a reload whose data has no entry for the product any more (version 100000+n answers "-")
+            else if c == 'E' then some [MStep.reload (if name == "geo" then n else 100000 + n) false]
+            else if c == 'T' then some (if split then [MStep.take n] else [])
+            else if c == 'U' then some (if split then [MStep.use n] else []) else none
         | [] => none
-    match parsed with
+    match parsed.map List.flatten with
     | none => { model := "bad-op", verdict := "skip" }
     | some steps =>
       let fin := mrun steps
+      let showN := fun (n : Nat) => if name == "geo" then "ok" else if n ≥ 100000 then "-" else toString n
       let showV := fun (v : Option Nat) => match v with
-        | some n => if name == "geo" then "ok" else toString n
+        | some n => showN n
         | none => "err"
       let model := if fin.out.isEmpty then "-" else ",".intercalate (fin.out.map fun o => o.1 ++ "=" ++ showV o.2.2)
       -- oracle on the implementation's own line: every answer is the one of the version taken (never err / newer data)
-      let expect := fin.out.map fun o => o.1 ++ "=" ++ (if name == "geo" then "ok" else toString o.2.1)
+      let expect := fin.out.map fun o => o.1 ++ "=" ++ showN o.2.1
       let got := if impl == "-" then [] else impl.splitOn ","
       let midReload := steps.any fun s => match s with | .use _ => true | _ => false
       { model := model,
